@@ -492,6 +492,21 @@ pub fn clock_protocol(case: &Case, h: &Hist, ag: &Agenda) -> Vec<Violation> {
             v.push(Violation::new("c18_sync_decreased", format!("synchronize({:?}) after synchronize({:?})", w[1].1, w[0].1)));
         }
     }
+    // (2') within one command no time is synchronized twice (a second call would come after the
+    // model code of that time has run).
+    for c in &h.cmds {
+        let hi = c.end.unwrap_or(u64::MAX);
+        let mut seen: Vec<T> = Vec::new();
+        for (seq, t, _) in &h.syncs {
+            if *seq > c.begin && *seq < hi {
+                if seen.contains(t) {
+                    v.push(Violation::new("c18_sync_repeated", format!("`{}` called synchronize({:?}) more than once (second call at seq {})", c.text, t, seq)));
+                    break;
+                }
+                seen.push(*t);
+            }
+        }
+    }
     // (2) each move to a new time is gated by exactly one synchronize.
     let mut prev_time = t0;
     let writes: Vec<(u64, T)> = ag.time_writes.iter().filter(|(s, _)| *s > init_end).cloned().collect();
